@@ -353,7 +353,7 @@ pub fn c05(ctx: &Ctx) -> (CheckMeta, Outcome) {
 
 
 /// Part 4: the public helper functions of the table modules, called directly.
-fn helper_functions(ctx: &Ctx) -> Outcome {
+pub fn helper_functions(ctx: &Ctx) -> Outcome {
     use dsi_bitstream::prelude::*;
     let mut tasks: Vec<Task> = vec![];
     for (code, read_bits, write_max) in tables() {
